@@ -6,6 +6,7 @@
     check regenerates the table from the current tree and re-proves the obligations below against it). *)
 From Coq Require Import List NArith Bool Lia.
 From V Require Import Race.Lockset Race.Tight Race.Refcount Race.PsView Race.Generated_Accesses.
+From V Require Race.Generated_Accesses_llm.
 Import ListNotations.
 
 (** Generic: for ANY access table T, any assignment of goroutine classes to threads and any well-formed trace
@@ -80,6 +81,30 @@ Theorem C15_sched_race_free : forall (cls_of : tid -> N) (tr : trace),
                                     waive waived e1 = false /\ waive waived e2 = false).
 Proof. intros cls_of tr H1 H2 H3. exact (lockset_sound_except accesses cls_of (waive waived) tr H1 H2 H3 C15_sched_lockset_partial). Qed.
 Print Assumptions C15_sched_race_free.
+
+(** The llmServer (llm/server.go) that all concurrent requests of one model share: its table passes the check
+    when the justified orderings of corpus/C15/benign.json are excluded (loadProgress / loadDuration, ordered by
+    package server's refMu and by "WaitUntilRunning is called once"), hence no two conflicting plain-field accesses
+    of its methods (Completion, Embedding, Tokenize, Detokenize, Ping, WaitUntilRunning, Close, ...) race. *)
+Theorem C15_llm_lockset_partial :
+  lockset_ok_except (waive Generated_Accesses_llm.waived) Generated_Accesses_llm.accesses = true.
+Proof. apply bad_pairs_nil. vm_compute. reflexivity. Qed.
+Print Assumptions C15_llm_lockset_partial.
+
+Theorem C15_llm_race_free : forall (cls_of : tid -> N) (tr : trace),
+  wf_trace tr -> conforms Generated_Accesses_llm.accesses cls_of tr -> safe_init Generated_Accesses_llm.accesses tr ->
+  race_free_on tr (fun s1 s2 => forall e1 e2,
+     nth_error (entries Generated_Accesses_llm.accesses) s1 = Some e1 -> nth_error (entries Generated_Accesses_llm.accesses) s2 = Some e2 ->
+     waive Generated_Accesses_llm.waived e1 = false /\ waive Generated_Accesses_llm.waived e2 = false).
+Proof.
+  intros cls_of tr H1 H2 H3.
+  exact (lockset_sound_except Generated_Accesses_llm.accesses cls_of (waive Generated_Accesses_llm.waived) tr H1 H2 H3 C15_llm_lockset_partial).
+Qed.
+Print Assumptions C15_llm_race_free.
+
+Example C15_llm_nonvacuous :
+  Nat.leb 50 (length (filter (fun e => negb (waive Generated_Accesses_llm.waived e)) (entries Generated_Accesses_llm.accesses))) = true.
+Proof. vm_compute. reflexivity. Qed.
 
 (** the guard is satisfiable by most of the table, and the waiver list is not vacuous either *)
 Example C15_partial_nonvacuous :
